@@ -5,9 +5,11 @@
    items are either str or something else (only the str-ness of an item matters to check_option_type), and
    VOther for everything else (float, bytes, dict, ...).
    Listeners (subscribers of OptManager.subscribe and direct receivers of the .changed signal) are ARBITRARY:
-   the Section variable [behave l s updated] says whether listener l accepts (true) or raises OptionsError (false)
-   when called in state s (which includes the whole log of earlier notifications, so listeners may be stateful)
-   with the set [updated].
+   the Section variable [behave l s updated] says how listener l reacts when called in state s (which includes the
+   whole log of earlier notifications, so listeners may be stateful) with the set [updated]: it returns (Accept),
+   raises OptionsError (Reject), or re-enters the manager with a nested self.update(kw) whose exception, if any,
+   propagates out of the listener (Nested kw; what addons do from configure).  The nested call is the Section
+   variable [nested]; [nested_update] ties the knot with a recursion-depth fuel.
    Variant flags (read from the live code by the harness, theorems quantify over them):
      vt = update_known type-checks every known value before assigning any  (fixes/C44-validate-before-assign.diff)
      vu = update refuses unknown names before assigning anything           (same diff)
@@ -116,9 +118,11 @@ Definition intersects (a b : list name) : bool := existsb (fun x => nmem x b) a.
 
 (* ---- state ---- *)
 Definition snap := list (name * val).
+Inductive kind := KAccept | KReject | KNested.
 Inductive event :=
-| Notified (l : N) (seen : snap) (updated : list name) (ok : bool)
+| Notified (l : N) (seen : snap) (updated : list name) (k : kind)   (* logged when the listener is entered *)
 | Errored.                                  (* .errored signal sent *)
+Inductive reaction := Accept | Reject | Nested (kw : list (name * val)).
 Inductive dval := DVal (v : val) | DStrings (l : list bytes).   (* _UnconvertedStrings *)
 
 Record state := mkState {
@@ -137,7 +141,10 @@ Definition add_log (e : event) (s : state) : state :=
   mkState (options s) (deferred s) (subscriptions s) (receivers s) (e :: log s).
 Definition snapshot (o : list (name * opt)) : snap := dmap current o.
 
-Inductive err := ETypeError | EOptionsError | EKeyError | ENotImplemented | EOther.   (* EOther: never produced by the model *)
+Inductive err := ETypeError | EOptionsError | EKeyError | ENotImplemented
+               | EFuel                       (* nesting deeper than the fuel: distinct out-of-fuel result *)
+               | EOther.                     (* never produced by the model *)
+Inductive nres := NOk | NRaised (e : err).  (* outcome of one signal send *)
 Inductive result := ROk | RUnknown (u : list (name * val)) | RErr (e : err).
 Inductive ures := UOk (unknown : list (name * val)) | UErr (e : err).
 
@@ -201,23 +208,30 @@ Definition parse_setval (o : opt) (values : list bytes) : pres :=
   end.
 
 Section Manager.
-  Variable behave : N -> state -> list name -> bool.
+  Variable behave : N -> state -> list name -> reaction.
   Variable vt vu : bool.
+  Variable nested : list (name * val) -> state -> state * result.   (* self.update called from inside a listener *)
 
   (* ---- signals ---- *)
   Definition targets (s : state) (updated : list name) : list N :=
     map fst (filter (fun p => intersects (snd p) updated) (subscriptions s)) ++ receivers s.
 
-  (* SyncSignal.send: call the listeners in order; the first OptionsError propagates *)
-  Fixpoint notify (ls : list N) (updated : list name) (s : state) : state * bool :=
+  (* SyncSignal.send: call the listeners in order; the first exception propagates *)
+  Fixpoint notify (ls : list N) (updated : list name) (s : state) : state * nres :=
     match ls with
-    | [] => (s, true)
+    | [] => (s, NOk)
     | l :: t =>
-        let ok := behave l s updated in
-        let s1 := add_log (Notified l (snapshot (options s)) updated ok) s in
-        if ok then notify t updated s1 else (s1, false)
+        match behave l s updated with
+        | Accept => notify t updated (add_log (Notified l (snapshot (options s)) updated KAccept) s)
+        | Reject => (add_log (Notified l (snapshot (options s)) updated KReject) s, NRaised EOptionsError)
+        | Nested kw =>
+            match nested kw (add_log (Notified l (snapshot (options s)) updated KNested) s) with
+            | (s2, RErr e) => (s2, NRaised e)
+            | (s2, _) => notify t updated s2
+            end
+        end
     end.
-  Definition changed_send (updated : list name) (s : state) : state * bool :=
+  Definition changed_send (updated : list name) (s : state) : state * nres :=
     notify (targets s updated) updated s.
 
   (* ---- add_option ---- *)
@@ -225,8 +239,8 @@ Section Manager.
     if negb (check_option_type d t) then (s, RErr ETypeError)
     else
       let s1 := set_options (dset n (mkOpt t d None) (options s)) s in
-      let (s2, ok) := changed_send [n] s1 in
-      (s2, if ok then ROk else RErr EOptionsError).
+      let (s2, r) := changed_send [n] s1 in
+      (s2, match r with NOk => ROk | NRaised e => RErr e end).
 
   (* ---- update_known with rollback ---- *)
   Definition is_known (o : list (name * opt)) (p : name * val) : bool := dmem (fst p) o.
@@ -259,12 +273,16 @@ Section Manager.
           match assign known (options s) with
           | (o1, false) => (set_options o1 s, UErr ETypeError)   (* TypeError is not caught by rollback *)
           | (o1, true) =>
-              let (s2, ok) := changed_send updated (set_options o1 s) in
-              if ok then (s2, UOk unknown)
-              else
-                let s3 := set_options old (add_log Errored s2) in
-                let (s4, _) := changed_send updated s3 in
-                (s4, UErr EOptionsError)
+              match changed_send updated (set_options o1 s) with
+              | (s2, NOk) => (s2, UOk unknown)
+              | (s2, NRaised EOptionsError) =>
+                  let s3 := set_options old (add_log Errored s2) in
+                  match changed_send updated s3 with
+                  | (s4, NOk) => (s4, UErr EOptionsError)       (* reraise *)
+                  | (s4, NRaised e) => (s4, UErr e)             (* a new exception escapes from the except block *)
+                  end
+              | (s2, NRaised e) => (s2, UErr e)                 (* not an OptionsError: no rollback *)
+              end
           end
     end.
 
@@ -294,8 +312,8 @@ Section Manager.
 
   Definition reset (s : state) : state * result :=
     let s1 := set_options (dmap reset_opt (options s)) s in
-    let (s2, ok) := changed_send (set_of (map fst (options s))) s1 in
-    (s2, if ok then ROk else RErr EOptionsError).
+    let (s2, r) := changed_send (set_of (map fst (options s))) s1 in
+    (s2, match r with NOk => ROk | NRaised e => RErr e end).
 
   Definition subscribe (l : N) (opts : list name) (s : state) : state * result :=
     if forallb (fun n => dmem n (options s)) opts
@@ -394,3 +412,13 @@ Section Manager.
     | o :: t => run t (fst (step o s))
     end.
 End Manager.
+
+(* the nested self.update of a listener: the same update, one level deeper *)
+Fixpoint nested_update (behave : N -> state -> list name -> reaction) (vt vu : bool) (fuel : nat)
+  (kw : list (name * val)) (s : state) : state * result :=
+  match fuel with
+  | O => (s, RErr EFuel)
+  | S f => update behave vt vu (nested_update behave vt vu f) kw s
+  end.
+Definition tstep behave vt vu (fuel : nat) := step behave vt vu (nested_update behave vt vu fuel).
+Definition trun behave vt vu (fuel : nat) := run behave vt vu (nested_update behave vt vu fuel).
